@@ -10,12 +10,13 @@ Model of the contract pipeline (C09): pre-execution → assembly → verificatio
 
 after the repairs `fix:` e466658 (declared contract transfers must be real outputs) and e01144a (a call
 answering with an error status is refused).  The sandbox is the proved model of C10 (`XV.Sandbox`,
-strip configuration `fixed`).
+strip configuration `fixed`), key/value side AND token side: `UReader`, `listReader`, `replayReader`,
+`transfer`, `flushEntries` are the definitions of `Model/Sandbox.lean`, not copies.
 
 * A contract is any deterministic `Prog`: a function from the results of its calls so far to its next
   action (`none` = return with status 200).  Actions: a sandbox call `op` (Get/Put/Del/Select in any
   bucket of `bks`; a nested contract call is a stretch of calls on the callee's bucket, the sandbox is
-  shared), a token transfer from the initiator, an event, resource use of the contract itself (`burn`),
+  shared), a token transfer `KContext.Transfer(from, to, amount)`, an event, resource use of the contract itself (`burn`),
   resource use inside a nested call (`subuse`, see below), `fail` (response status >= 400) and `err`
   (the call aborts with an error).  `fuel` bounds the number of actions (the VM's step bound).
 * Resources (one dimension, XFee): `used` is what the contract itself used — for a kernel contract
@@ -26,17 +27,25 @@ strip configuration `fixed`).
 * The committed contract state `DB` is the pair of xmodel tables: `live` (ZU) and `dead` (ZD, delete
   markers); an entry holds the version `mkVer txid offset` and the value (`0` = delete mark), the way
   `XModel.Get` resolves a version to the output it names.  `DB.reader` is the C10 reader `xmodelReader`.
+* Tokens.  A transfer asks the execution's `contract.UtxoReader` for inputs of `from` covering the amount
+  (`UTXOSandbox.Transfer` = `Sandbox.transfer`): the inputs handed out are recorded, an output to the
+  receiver and — iff the inputs are worth more — a change output to `from` are recorded.  PreExec runs over
+  a first-run reader (`UtxoVM.SelectUtxos`; any reader `R`, the theorems ask it to meet the `SelectUtxos`
+  contract `UReader.Lawful`), verification over `replayReader` (`sandbox.NewUTXOReaderFromInput`) of the
+  inputs DECLARED in the transaction.  `Flush` writes inputs, outputs and events into the transient bucket
+  (`flushEntries`), so the comparison of write sets compares them too.
 * `Tx` is what the property speaks about: request (program, declared limit), `$` fee output, declared
   read set (versions), declared write set (bucket, key, value; transient bucket aside), the declared
-  transient entries (`cx` = ContractUtxo.Outputs, `ev` = contractEvent) and the real outputs `outs`
-  to other addresses.  Change outputs, token inputs and signatures are outside the model.
+  transient entries (`cin` = ContractUtxo.Inputs, `cx` = ContractUtxo.Outputs — change outputs included —,
+  `ev` = contractEvent), the references `ins` of the real token inputs and the real outputs `outs`.
+  Inputs and outputs that pay the fee, the sum check and signatures are outside the model.
 -/
 namespace XV.Contract
 open XV.Sandbox
 
 inductive Act where
   | op (o : Op)
-  | transfer (to amt : Nat)
+  | transfer (a to amt : Nat)   -- from, to, amount
   | event (e : Nat)
   | burn (n : Nat)
   | subuse (n : Nat)
@@ -55,24 +64,24 @@ def opBucket : Op → Bucket
 /-- the part of an execution context outside the sandbox -/
 structure Meta where
   res : List Res := []             -- results of the actions so far, oldest first
-  xf : List (Nat × Nat) := []      -- transfers (to, amount)
   ev : List Nat := []              -- events
   used : Nat := 0
   peak : Nat := 0
 deriving Repr, DecidableEq
 
-structure Ctx where
+structure Ctx (σ : Type) where
   sb : State
   m : Meta
+  tok : UState σ     -- `UTXOSandbox`: reader state, recorded inputs, recorded outputs
 
-def Ctx.init : Ctx := ⟨State.init, {}⟩
+/-- a fresh sandbox over the utxo reader state `st` -/
+def Ctx.init (st : σ) : Ctx σ := ⟨State.init, {}, ⟨st, [], []⟩⟩
 
 inductive Outcome where
   | ok | failed | error
 deriving Repr, DecidableEq
 
 def Meta.push (m : Meta) (y : Res) : Meta := { m with res := m.res ++ [y] }
-def Meta.addXf (m : Meta) (to amt : Nat) : Meta := { m.push .done with xf := m.xf ++ [(to, amt)] }
 def Meta.addEv (m : Meta) (e : Nat) : Meta := { m.push .done with ev := m.ev ++ [e] }
 /-- the contract itself uses `n` -/
 def Meta.burn (m : Meta) (n : Nat) : Meta :=
@@ -81,22 +90,25 @@ def Meta.burn (m : Meta) (n : Nat) : Meta :=
 def Meta.subuse (m : Meta) (n : Nat) : Meta := { m.push .done with peak := max m.peak (m.used + n) }
 
 /-- one action other than `fail` / `err`; `none` = the action itself errors -/
-def act (bks : List Bucket) (r : Reader) (x : Ctx) : Act → Option Ctx
+def act (bks : List Bucket) (r : Reader) (R : UReader σ) (x : Ctx σ) : Act → Option (Ctx σ)
   | .op o =>
     if opBucket o ∈ bks then
-      some ⟨(stepOp fixed r x.sb o).1, x.m.push (stepOp fixed r x.sb o).2⟩
+      some ⟨(stepOp fixed r x.sb o).1, x.m.push (stepOp fixed r x.sb o).2, x.tok⟩
     else none
-  | .transfer to amt =>
-    -- UTXOSandbox.Transfer refuses amount 0; the initiator's balance is assumed sufficient
-    if amt = 0 then none else some ⟨x.sb, x.m.addXf to amt⟩
-  | .event e => some ⟨x.sb, x.m.addEv e⟩
-  | .burn n => some ⟨x.sb, x.m.burn n⟩
-  | .subuse n => some ⟨x.sb, x.m.subuse n⟩
+  | .transfer a to amt =>
+    -- `UTXOSandbox.Transfer`: amount 0 refused, the reader may refuse (not enough, wrong owner); the
+    -- contract passes the error on
+    match transfer R x.tok a to amt with
+    | (u, true) => some ⟨x.sb, x.m.push .done, u⟩
+    | (_, false) => none
+  | .event e => some ⟨x.sb, x.m.addEv e, x.tok⟩
+  | .burn n => some ⟨x.sb, x.m.burn n, x.tok⟩
+  | .subuse n => some ⟨x.sb, x.m.subuse n, x.tok⟩
   | .fail => none
   | .err => none
 
 /-- `Invoke`: run the program until it returns, fails, errors or runs out of fuel -/
-def exec (bks : List Bucket) (r : Reader) (p : Prog) : Nat → Ctx → Ctx × Outcome
+def exec (bks : List Bucket) (r : Reader) (R : UReader σ) (p : Prog) : Nat → Ctx σ → Ctx σ × Outcome
   | 0, x => (x, .error)
   | fuel + 1, x =>
     match p x.m.res with
@@ -104,9 +116,9 @@ def exec (bks : List Bucket) (r : Reader) (p : Prog) : Nat → Ctx → Ctx × Ou
     | some .fail => (x, .failed)
     | some .err => (x, .error)
     | some a =>
-      match act bks r x a with
+      match act bks r R x a with
       | none => (x, .error)
-      | some x' => exec bks r p fuel x'
+      | some x' => exec bks r R p fuel x'
 
 /-! ### the committed state -/
 
@@ -145,14 +157,21 @@ structure Tx where
   fee : Nat
   kin : List REntry
   kout : List WEntry
-  cx : List (Nat × Nat)
-  ev : List Nat
-  outs : List (Nat × Nat)
+  cin : List TxIn      -- declared `ContractUtxo.Inputs`
+  cx : List TxOut      -- declared `ContractUtxo.Outputs` (payments and change, in the order of the calls)
+  ev : List Nat        -- declared `contractEvent`
+  ins : List Nat       -- references of the real `TxInputs`
+  outs : List TxOut    -- the real `TxOutputs`
 
-/-- number of transient entries, which precede the other buckets in `TxOutputsExt` ("$" sorts first):
-`ContractUtxo.Inputs` + `ContractUtxo.Outputs` if the contract transferred, `contractEvent` if it emitted -/
-def nTransient (cx : List (Nat × Nat)) (ev : List Nat) : Nat :=
-  (if cx = [] then 0 else 2) + (if ev = [] then 0 else 1)
+/-- an event number as the `ContractEvent` of the sandbox model -/
+def evOf (l : List Nat) : List Event := l.map (fun e => ⟨e, e⟩)
+
+/-- the transient entries of a write set: what `Flush` writes for these inputs, outputs and events -/
+def transientOf (cin : List TxIn) (cx : List TxOut) (ev : List Nat) : List TEntry :=
+  flushEntries cin cx (evOf ev)
+
+/-- number of transient entries, which precede the other buckets in `TxOutputsExt` ("$" sorts first) -/
+def nTransient (cin : List TxIn) (cx : List TxOut) (ev : List Nat) : Nat := (transientOf cin cx ev).length
 
 /-- `XModel.updateExtUtxo` -/
 def applyKOut (id : Nat) : List WEntry → Nat → DB → DB
@@ -163,7 +182,7 @@ def applyKOut (id : Nat) : List WEntry → Nat → DB → DB
       else ⟨db.live.put b k ⟨mkVer id off, v⟩, db.dead⟩
     applyKOut id rest (off + 1) db'
 
-def commit (db : DB) (t : Tx) : DB := applyKOut t.id t.kout (nTransient t.cx t.ev) db
+def commit (db : DB) (t : Tx) : DB := applyKOut t.id t.kout (nTransient t.cin t.cx t.ev) db
 
 /-! ### read / write set listings -/
 
@@ -182,24 +201,30 @@ structure Pre where
   outcome : Outcome
   kin : List REntry
   kout : List WEntry
-  cx : List (Nat × Nat)
+  cin : List TxIn      -- `UtxoInputs`
+  cx : List TxOut      -- `UtxoOutputs`
   ev : List Nat
   used : Nat
   peak : Nat
   res : List Res
 deriving Repr, DecidableEq
 
-/-- `Chain.PreExec`: sandbox over the live state, maximal limits; an erroring call yields no response -/
-def preexec (bks : List Bucket) (fuel : Nat) (db : DB) (p : Prog) : Option Pre :=
-  match exec bks db.reader p fuel Ctx.init with
+/-- `Chain.PreExec`: sandbox over the live state and the first-run utxo reader `R` in state `st`, maximal
+limits; an erroring call yields no response -/
+def preexec (bks : List Bucket) (fuel : Nat) (db : DB) (R : UReader σ) (st : σ) (p : Prog) : Option Pre :=
+  match exec bks db.reader R p fuel (Ctx.init st) with
   | (_, .error) => none
-  | (x, o) => some ⟨o, rsetOf bks x.sb, wsetOf bks x.sb, x.m.xf, x.m.ev, x.m.used, x.m.peak, x.m.res⟩
+  | (x, o) => some ⟨o, rsetOf bks x.sb, wsetOf bks x.sb, x.tok.uin, x.tok.uout, x.m.ev, x.m.used, x.m.peak, x.m.res⟩
+
+/-- the first-run reader after a pre-execution, whatever its outcome: what it handed out stays locked -/
+def preexecRd (bks : List Bucket) (fuel : Nat) (db : DB) (R : UReader σ) (st : σ) (p : Prog) : σ :=
+  (exec bks db.reader R p fuel (Ctx.init st)).1.tok.rd
 
 /-- the client: requests with the returned limits, `$` output paying their gas (`price` gas per unit:
-0 on a no-fee chain), returned read / write sets, the contract's outputs as real outputs -/
+0 on a no-fee chain), returned read / write sets, the contract's inputs and outputs as real inputs and outputs -/
 def assemble (price id : Nat) (p : Prog) (pre : Pre) : Tx :=
   { id := id, prog := p, limit := pre.used, fee := price * pre.used, kin := pre.kin, kout := pre.kout,
-    cx := pre.cx, ev := pre.ev, outs := pre.cx }
+    cin := pre.cin, cx := pre.cx, ev := pre.ev, ins := pre.cin.map (·.ref), outs := pre.cx }
 
 /-! ### verification -/
 
@@ -217,16 +242,24 @@ is "same length and every re-executed entry is declared" -/
 def sameSet (decl lst : List WEntry) : Bool :=
   decl.length == lst.length && lst.all (fun e => decl.contains e)
 
-/-- sub-multiset (`isSubOutputs`) -/
-def subMulti : List (Nat × Nat) → List (Nat × Nat) → Bool
+/-- sub-multiset (`isSubOutputs`: a counter per (amount, receiver), decremented by every match) -/
+def subMulti : List TxOut → List TxOut → Bool
   | [], _ => true
   | a :: rest, l => l.contains a && subMulti rest (l.erase a)
 
-/-- the re-execution of `verifyTxRWSets` over the declared reads under the declared limit -/
+/-- `isContractUtxoEffective`: the declared contract inputs are inputs of the transaction (by reference),
+the declared contract outputs are outputs of the transaction, each as often as it is declared -/
+def effective (t : Tx) : Bool :=
+  decide (t.cin.length ≤ t.ins.length) && decide (t.cx.length ≤ t.outs.length) &&
+  t.cin.all (fun u => t.ins.contains u.ref) && subMulti t.cx t.outs
+
+/-- the re-execution of `verifyTxRWSets` over the declared reads and the declared contract inputs under
+the declared limit, `Flush`, comparison of the write sets (the transient entries are part of them) -/
 def reexecOK (bks : List Bucket) (fuel : Nat) (db : DB) (t : Tx) : Bool :=
-  match exec bks (memReader (rsOf db t.kin)) t.prog fuel Ctx.init with
+  match exec bks (memReader (rsOf db t.kin)) replayReader t.prog fuel (Ctx.init t.cin) with
   | (x, .ok) =>
-    decide (x.m.peak ≤ t.limit) && sameSet t.kout (wsetOf bks x.sb) && (t.cx == x.m.xf) && (t.ev == x.m.ev)
+    decide (x.m.peak ≤ t.limit) && sameSet t.kout (wsetOf bks x.sb) &&
+      (transientOf t.cin t.cx t.ev == transientOf x.tok.uin x.tok.uout x.m.ev)
   | _ => false
 
 /-- `xmodel.verifyOutputs`: a written key must be a declared read -/
@@ -237,7 +270,7 @@ def writesRead (t : Tx) : Bool :=
 def verify (bks : List Bucket) (price fuel : Nat) (db : DB) (t : Tx) : Bool :=
   readsCurrent db t.kin &&
   decide (price * t.limit ≤ t.fee) &&
-  subMulti t.cx t.outs &&
+  effective t &&
   reexecOK bks fuel db t &&
   writesRead t
 
